@@ -8,7 +8,12 @@
    the operations and the observations; strings the implementation came up with that the
    input did not contain (a key of Entries, what a cron job sent) are appended to the table
    and to the alphabet by the harness, so that they are compared like all others.
-   [i_invalid] lists the table's strings the real cron.Parse rejected. *)
+   [i_invalid] lists the table's strings the real cron.Parse rejected.
+   Coinciding firings (OStart): the harness starts the REAL job closures of the chosen cron
+   entries in goroutines of their own while nobody receives, waits until each has returned
+   or is parked, and reports len(ScheduleCh) and the number of parked goroutines after
+   every operation; ODrain (and OTick / OTickAll before they fire) receives until every
+   started job has returned and the channel is empty and reports the strings received. *)
 From Verif Require Import Common C11_Model C11_Spec.
 
 Definition case := (input * list obs)%type.
@@ -33,10 +38,25 @@ Definition cron_eqb (a b : N * ct) : bool := N.eqb (fst a) (fst b) && ct_eqb (sn
 (* firing: the controller iterates a Go map, its answer is judged as a multiset *)
 Definition fire_eqb (a b : bool * list info) : bool :=
   Bool.eqb (fst a) (fst b) && is_perm (snd a) (snd b).
+(* what the consumer received: in which order parked senders are woken is the runtime's
+   choice, the strings are judged as a multiset *)
+Fixpoint ct_remove_first (x : ct) (l : list ct) : option (list ct) :=
+  match l with
+  | [] => None
+  | y :: r => if ct_eqb x y then Some r
+              else match ct_remove_first x r with Some r' => Some (y :: r') | None => None end
+  end.
+Fixpoint ct_perm (a b : list ct) : bool :=
+  match a with
+  | [] => match b with [] => true | _ :: _ => false end
+  | x :: a' => match ct_remove_first x b with Some b' => ct_perm a' b' | None => false end
+  end.
 Definition obs_eqb (a b : obs) : bool :=
   list_eqb entry_eqb (o_entries a) (o_entries b)
   && list_eqb cron_eqb (o_cron a) (o_cron b)
-  && list_eqb fire_eqb (o_fire a) (o_fire b).
+  && list_eqb fire_eqb (o_fire a) (o_fire b)
+  && ct_perm (o_recv a) (o_recv b)
+  && N.eqb (o_chlen a) (o_chlen b) && N.eqb (o_parked a) (o_parked b).
 
 Definition model_obs (c : case) : list obs := run_model (fst c).
 Definition agrees (c : case) : bool := list_eqb obs_eqb (model_obs c) (snd c).
